@@ -627,6 +627,18 @@ func CheckC13(w *World, s *Snapshot, quiescentNoViews bool) []V {
 			out = append(out, V{"C13", "c13.unused-file-kept", fmt.Sprintf("index file f%d is on disk but neither served nor used by a view or job", s.Rank[n])})
 		}
 	}
+	// the importer keeps one file of reassembly snapshots: the one its next import resumes from.  A job body runs
+	// between two states, so in every state at most one file is there (the directory is a plain file while the
+	// fault snapdir-gone lasts)
+	if ents, err := os.ReadDir(w.SnapDir); err == nil {
+		var names []string
+		for _, e := range ents {
+			names = append(names, e.Name())
+		}
+		if len(names) > 1 {
+			out = append(out, V{"C13", "c13.snapshot-file-kept", fmt.Sprintf("the snapshot directory holds %d files, the importer resumes from one of them and nothing deletes the others", len(names))})
+		}
+	}
 	if quiescentNoViews {
 		served := map[string]bool{}
 		for _, r := range s.St.Indexes {
